@@ -19,6 +19,7 @@ RULE = ("every charge pattern of length <= Lp (quick 8, thorough 10) against its
 RULE += ("; added after the mutation rounds: targeted compositions with >= 18 neutrals and 1-2 residues of one sign; 450-1300-residue chains judged on delta; salted / re-spelled objects; the first cases of every shard are judged again at its end")
 RULE += ("; round 5: objects restored from pickle / copy / deepcopy")
 RULE += ("; round 8: the delta-max arrangement of a composition itself as input (with its mirror and charge inverse); objects built from files")
+RULE += ("; round 9: the permutant asked first on a third of the objects; arrangements whose raw ratio exceeds 1; near-tie compositions; 0-3 neutral residues")
 EXHAUSTIVE = {"quick": False, "thorough": False}
 EXHAUSTIVE_NOTE = {"quick": "all patterns of length <= 8 vs reversal and inversion",
                    "thorough": "all patterns of length <= 10 vs reversal and inversion"}
